@@ -600,6 +600,18 @@ def _gen_module(src, mname, m, pinned, new_pinned, out_dir, report):
             rep[iname] = status
             new_pinned[key] = text
             texts.append(text)
+        # All or nothing per module: the items of one module describe one piece of source and must be mutually consistent
+        # (e.g. the guards and the plans of the same branches).  If one item had to fall back to its pinned text while others
+        # were regenerated from a restructured source, the mixture describes neither version; the whole module is then the
+        # pinned one and the correspondence check decides whether the implementation still behaves like it.
+        fell = [i for i, st in rep.items() if st.startswith('pinned-fallback')]
+        keys = [f'{mname}.{iname}' for iname, _ in m['items']]
+        if fell and all(k in pinned for k in keys) and any(not st.startswith('pinned-fallback') and 'differs' in st for st in rep.values()):
+            texts = [pinned[k] for k in keys]
+            for (iname, _), k in zip(m['items'], keys):
+                new_pinned[k] = pinned[k]
+                if not rep[iname].startswith('pinned-fallback'):
+                    rep[iname] = f'pinned-fallback: module-wide (item {fell[0]} is unsupported)'
         header = f'-- GENERATED by extract/py2lean.py from {m["source"]} -- do not edit\n'
         header += ''.join(f'import {i}\n' for i in m['imports'])
         out = header + f'namespace Xrfmv.Gen.{mname}\n\n' + '\n\n'.join(texts) + f'\n\nend Xrfmv.Gen.{mname}\n'
